@@ -37,7 +37,15 @@ impl World {
     fn new(tag: &str, n_ids: usize, contents: Vec<String>) -> World {
         let dir = PathBuf::from(format!("{}/work/c12-{}-{}", out_dir(), std::process::id(), tag));
         let _ = std::fs::create_dir_all(&dir);
-        let ids = (0..n_ids).map(|i| dir.join(format!("f{i}.aidl"))).collect();
+        // ids are paths exactly as a caller may spell them: plain, through `sub/..`, through `./`
+        let _ = std::fs::create_dir_all(dir.join("sub"));
+        let ids = (0..n_ids)
+            .map(|i| match i % 3 {
+                0 => dir.join("sub").join("..").join(format!("f{i}.aidl")),
+                1 => dir.join(format!("f{i}.aidl")),
+                _ => dir.join(".").join(format!("f{i}.aidl")),
+            })
+            .collect();
         World { dir, ids, contents }
     }
     fn cleanup(&self) {
